@@ -1,11 +1,285 @@
 /-
-  Property C15 — implied conditional independencies are enumerated exactly (work in progress: skeleton).
+  Property C15 — implied conditional independencies are enumerated exactly.
+
+  The theorems are about the executable model of `d_separations` / `minimal` / the two built-in policies /
+  `powerset` / `get_conditional_independencies` in `Y0.Model.Sep` (after the `fix:` for defect F6: sets of exactly
+  `max_conditions` elements are tried), which harness/props/c15.py compares with the Python on every run.
+
+  They are PARAMETRIC in the separation test: `sep` is any function that, on the queries the enumeration makes
+  (`QueryOn V a b C`: two different vertices, conditions among the other vertices), returns a verdict `s a b C`
+  that is symmetric in `(a, b)` and depends on `C` only as a set (`GoodTest`, Y0/Lemmas/SepCI.lean; there also
+  `Cand V a b k C`: `C` is an admissible conditioning set for the pair — other vertices, no repetition, at most `k`).  Section 3 instantiates them with the model of
+  `are_d_separated`, for which property C04 shows `s a b C ⟺ a, b d-separated given C in the canonical DAG`.
+
+  For every vertex list `V` without repetition (in ANY order — Python iterates a hash-ordered set), every size limit
+  (`none` or `some k`), both policies, `return_all` on or off, whenever the function returns `R`:
+    * `ci_sound`     every listed judgement passes the test, is canonical, names two vertices `left < right`, its
+                     conditions are other vertices, no repetition, at most `k` of them;
+    * `ci_complete`  every pair that some admissible set within the limit separates is listed;
+    * `ci_unique`    no two listed judgements have the same `(left, right)`  (with `ci_sound`: one per unordered
+                     pair, none for anything that is not a pair of vertices);
+    * `ci_minimum`   no separating set of any size is smaller than the listed one;
+    * `ci_total`     the function does return (for `_len_lex` always; for the topological policy when every vertex
+                     occurs in the order — which `ci_total_admg` discharges for every ADMG).
 -/
-import Y0.Model.Sep
+import Y0.Lemmas.SepCI
+import Y0.Props.C04
+import Y0.Lemmas.LatentKahn
+import Y0.Lemmas.LatentTopo
 
 namespace Y0
+open List
 
-theorem combinations_zero {α : Type} (l : List α) : combinations l 0 = [[]] := by
-  cases l <;> rfl
+/-! ## 2. `get_conditional_independencies`, for any good test -/
+
+theorem policy_key_fst (policy : Policy) (j : Judgement) (k : Nat × List Nat) (h : policy.key j = .ok k) :
+    k.1 = j.conditions.length := by
+  cases policy with
+  | lenLex => simp [Policy.key] at h; rw [← h]
+  | topological order =>
+    simp only [Policy.key, bind, Except.bind, pure, Except.pure] at h
+    split at h
+    · cases h
+    · simp at h; rw [← h]
+
+theorem keyFn_fst (policy : Policy) (j : Judgement) : (keyFn policy.key j).1 = j.conditions.length := by
+  unfold keyFn
+  split
+  · rename_i k hk; exact policy_key_fst policy j k hk
+  · rfl
+
+/-- when the function returns, it returns `minimal` of the pure enumeration -/
+theorem ci_result {sep : Nat → Nat → List Nat → Except Err Bool} {s : Nat → Nat → List Nat → Bool}
+    {V : List Nat} (hV : V.Nodup) (ht : GoodTest sep s V) (policy : Policy) (maxC : Option Nat) (ra : Bool)
+    (R : List Judgement) (h : conditionalIndependenciesWith sep V policy maxC ra = .ok R) :
+    R = pureMinimal (keyFn policy.key) (pureSeps s V maxC ra) := by
+  unfold conditionalIndependenciesWith at h
+  rw [dSeparationsWith_ok sep s V hV maxC ra ht.agrees] at h
+  exact minimalWith_eq_of_ok policy.key _ R h
+
+section main
+variable {sep : Nat → Nat → List Nat → Except Err Bool} {s : Nat → Nat → List Nat → Bool} {V : List Nat}
+  (hV : V.Nodup) (ht : GoodTest sep s V) (policy : Policy) (maxC : Option Nat) (ra : Bool) (R : List Judgement)
+  (h : conditionalIndependenciesWith sep V policy maxC ra = .ok R)
+include hV ht h
+
+/-- **Sound.**  Every listed judgement is a separation according to the test, in canonical form, between two
+vertices, with an admissible conditioning set within the requested limit. -/
+theorem ci_sound : ∀ j ∈ R, j.separated = true ∧ j.left < j.right ∧ j.left ∈ V ∧ j.right ∈ V ∧
+    Cand V j.left j.right maxC j.conditions ∧ s j.left j.right j.conditions = true ∧ j.isCanonical = true := by
+  intro j hj
+  rw [ci_result hV ht policy maxC ra R h] at hj
+  exact pureSeps_sound hV ht ((pureMinimal_spec _ _).1 j hj)
+
+/-- **Complete.**  Every pair of vertices that some admissible set within the limit separates is listed. -/
+theorem ci_complete (a b : Nat) (ha : a ∈ V) (hb : b ∈ V) (hab : a < b) (C : List Nat) (hC : Cand V a b maxC C)
+    (hs : s a b C = true) : ∃ j ∈ R, j.left = a ∧ j.right = b := by
+  rw [ci_result hV ht policy maxC ra R h]
+  obtain ⟨j, hj, hk, _⟩ := pureSeps_complete hV ht maxC ra ha hb hab hC hs
+  obtain ⟨r, hr, hrk⟩ := (pureMinimal_spec (keyFn policy.key) _).2.2.1 j hj
+  refine ⟨r, hr, ?_⟩
+  have : keyOf r = (a, b) := hrk.trans hk
+  simpa [keyOf] using this
+
+/-- **Unique.**  No two listed judgements concern the same pair. -/
+theorem ci_unique : (R.map (fun j => (j.left, j.right))).Nodup := by
+  rw [ci_result hV ht policy maxC ra R h]
+  exact (pureMinimal_spec (keyFn policy.key) _).2.1
+
+/-- **Minimum.**  No admissible separating set of ANY size is smaller than the listed one. -/
+theorem ci_minimum : ∀ j ∈ R, ∀ C, Cand V j.left j.right none C → s j.left j.right C = true →
+    j.conditions.length ≤ C.length := by
+  intro j hj C hC hs
+  have hsound := ci_sound hV ht policy maxC ra R h j hj
+  rw [ci_result hV ht policy maxC ra R h] at hj
+  -- beyond the limit there is nothing to show
+  by_cases hlim : ∀ kk, maxC = some kk → C.length ≤ kk
+  · obtain ⟨j', hj', hk', hle⟩ := pureSeps_complete hV ht maxC ra hsound.2.2.1 hsound.2.2.2.1 hsound.2.1
+      (C := C) ⟨hC.1, hC.2.1, hlim⟩ hs
+    have := (pureMinimal_spec (keyFn policy.key) _).2.2.2 j hj j' hj' hk'
+    rw [keyFn_fst, keyFn_fst] at this
+    omega
+  · push_neg at hlim
+    obtain ⟨kk, hkk, hlt⟩ := hlim
+    have := hsound.2.2.2.2.1.2.2 kk hkk
+    omega
+
+end main
+
+/-- **Total.**  With `_len_lex` the function always returns; with the topological policy it returns whenever
+every vertex occurs in the order (as it does for the order of `graph.topological_sort()`). -/
+theorem ci_total {sep : Nat → Nat → List Nat → Except Err Bool} {s : Nat → Nat → List Nat → Bool}
+    {V : List Nat} (hV : V.Nodup) (ht : GoodTest sep s V) (policy : Policy) (maxC : Option Nat) (ra : Bool)
+    (hpol : ∀ order, policy = .topological order → ∀ v ∈ V, v ∈ order) :
+    ∃ R, conditionalIndependenciesWith sep V policy maxC ra = .ok R := by
+  unfold conditionalIndependenciesWith
+  rw [dSeparationsWith_ok sep s V hV maxC ra ht.agrees]
+  simp only [bind, Except.bind]
+  have hkey : ∀ j ∈ pureSeps s V maxC ra, policy.key j = .ok (keyFn policy.key j) := by
+    intro j hj
+    cases policy with
+    | lenLex => simp [Policy.key, keyFn]
+    | topological order =>
+      have hVo := hpol order rfl
+      have hcond : ∀ c ∈ j.conditions, c ∈ order := fun c hc =>
+        hVo c ((pureSeps_sound hV ht hj).2.2.2.2.1.2.1 c hc).1
+      have hidx : ∀ c ∈ j.conditions, ∃ i, indexOf? order c = some i := by
+        intro c hc
+        have := hcond c hc
+        clear hcond hj hVo hpol
+        induction order with
+        | nil => simp at this
+        | cons x xs ih =>
+          simp only [indexOf?]
+          split
+          · exact ⟨0, rfl⟩
+          · rename_i hne
+            rcases List.mem_cons.1 this with rfl | h'
+            · exact absurd rfl hne
+            · obtain ⟨i, hi⟩ := ih h'
+              exact ⟨i + 1, by simp [hi]⟩
+      have hm := mapM_ok_of_forall
+        (fun v => match indexOf? order v with | some i => Except.ok i | none => .error (.internal "ValueError"))
+        (fun v => (indexOf? order v).getD 0) j.conditions (by
+          intro c hc
+          obtain ⟨i, hi⟩ := hidx c hc
+          simp [hi])
+      simp only [Policy.key, keyFn, bind, Except.bind, pure, Except.pure]
+      generalize hx : List.mapM (m := Except Err) _ j.conditions = r
+      have hr : r = .ok _ := hx.symm.trans hm
+      subst hr
+      rfl
+  exact ⟨_, minimalWith_ok policy.key (keyFn policy.key) _ hkey⟩
+
+/-! ## 3. the instance y0 ships: the test is `are_d_separated`
+
+`sepVerdict` is the verdict of the C04 model; by C04 (`dsep_iff_dsep_canonical`) it is `true` exactly when the two
+nodes are d-separated given `C` in the canonical DAG.  So "true separation in the graph" below is the textbook notion. -/
+
+namespace MG
+
+/-- the verdict of the `are_d_separated` model as a Boolean (an error counts as "not separated"; on the queries
+made by the enumeration the model never errs: `dsep_total`) -/
+def sepVerdict (G : MG Nat) (a b : Nat) (C : List Nat) : Bool :=
+  match G.dSeparated a b C with
+  | .ok v => v
+  | .error _ => false
+
+theorem mem_vertexList (G : MG Nat) (v : Nat) : v ∈ G.vertexList ↔ v ∈ G.nodes := by
+  simp [vertexList]
+
+theorem nodup_vertexList (G : MG Nat) : G.vertexList.Nodup := sortLe_nodup _ (nodup_dedup' _)
+
+theorem validQuery_of_queryOn (G : MG Nat) {a b : Nat} {C : List Nat} (h : QueryOn G.vertexList a b C) :
+    G.ValidQuery a b C ∧ a ≠ b ∧ a ∉ C ∧ b ∉ C := by
+  obtain ⟨ha, hb, hab, hC⟩ := h
+  refine ⟨⟨(mem_vertexList G a).1 ha, (mem_vertexList G b).1 hb, fun c hc => (mem_vertexList G c).1 (hC c hc).1⟩,
+    hab, fun h => (hC a h).2.1 rfl, fun h => (hC b h).2.2 rfl⟩
+
+/-- the C04 model is a good test on the vertex list of any graph `from_edges` can build -/
+theorem goodTest_dSeparated (G : MG Nat) (hG : G.WF) : GoodTest G.dSeparated G.sepVerdict G.vertexList where
+  agrees := by
+    intro a b C h
+    obtain ⟨hq, _, ha, hb⟩ := validQuery_of_queryOn G h
+    obtain ⟨v, hv⟩ := dsep_total G hG a b C hq ha hb
+    simp [sepVerdict, hv]
+  symm := by intro a b C; simp only [sepVerdict, dsep_symm G hG a b C]
+  set_valued := by intro a b C C' h; simp only [sepVerdict, dsep_cond_congr G hG a b C C' h]
+
+/-- for a query of the enumeration: the verdict is d-separation in the canonical DAG (property C04) -/
+theorem sepVerdict_iff (G : MG Nat) (hG : G.WF) {a b : Nat} {C : List Nat} (h : QueryOn G.vertexList a b C) :
+    G.sepVerdict a b C = true ↔ ¬ G.DConnCanonical a b C := by
+  obtain ⟨hq, hab, ha, hb⟩ := validQuery_of_queryOn G h
+  obtain ⟨v, hv⟩ := dsep_total G hG a b C hq ha hb
+  rw [← dsep_iff_dsep_canonical G hG a b C hq hab ha hb v hv]
+  simp [sepVerdict, hv]
+
+theorem conditionalIndependencies_policy (G : MG Nat) (topological : Bool) (maxC : Option Nat) (ra : Bool)
+    (R : List Judgement) (h : G.conditionalIndependencies topological maxC ra = .ok R) :
+    ∃ policy, conditionalIndependenciesWith G.dSeparated G.vertexList policy maxC ra = .ok R := by
+  unfold conditionalIndependencies at h
+  cases topological with
+  | false => exact ⟨.lenLex, by simpa [bind, Except.bind, pure, Except.pure] using h⟩
+  | true =>
+    cases ho : G.topologicalSort with
+    | error e => simp [ho, bind, Except.bind] at h
+    | ok o => exact ⟨.topological o, by simpa [ho, bind, Except.bind, pure, Except.pure] using h⟩
+
+theorem queryOn_of_cand (G : MG Nat) {a b : Nat} {k : Option Nat} {C : List Nat} (ha : a ∈ G.vertexList)
+    (hb : b ∈ G.vertexList) (hab : a ≠ b) (hC : Cand G.vertexList a b k C) : QueryOn G.vertexList a b C :=
+  ⟨ha, hb, hab, hC.2.1⟩
+
+/-- **C15 for y0's own test.**  Whenever `get_conditional_independencies(graph, policy, max_conditions=k)` returns
+(either built-in policy, any `k` or none, `return_all` on or off), its result `R` contains exactly one judgement for
+every unordered pair of nodes that some conditioning set within the limit d-separates (in the canonical DAG), none
+for any other pair, and every listed judgement is such a d-separation, canonical, with a conditioning set of
+minimum size. -/
+theorem ci_exact (G : MG Nat) (hG : G.WF) (topological : Bool) (maxC : Option Nat) (ra : Bool)
+    (R : List Judgement) (h : G.conditionalIndependencies topological maxC ra = .ok R) :
+    -- sound, canonical, within the limit
+    (∀ j ∈ R, j.separated = true ∧ j.left < j.right ∧ j.left ∈ G.nodes ∧ j.right ∈ G.nodes ∧
+        Cand G.vertexList j.left j.right maxC j.conditions ∧ j.isCanonical = true ∧
+        ¬ G.DConnCanonical j.left j.right j.conditions) ∧
+    -- complete
+    (∀ a b, a ∈ G.nodes → b ∈ G.nodes → a < b → ∀ C, Cand G.vertexList a b maxC C → ¬ G.DConnCanonical a b C →
+        ∃ j ∈ R, j.left = a ∧ j.right = b) ∧
+    -- one judgement per pair
+    (R.map (fun j => (j.left, j.right))).Nodup ∧
+    -- minimum size
+    (∀ j ∈ R, ∀ C, Cand G.vertexList j.left j.right none C → ¬ G.DConnCanonical j.left j.right C →
+        j.conditions.length ≤ C.length) := by
+  obtain ⟨policy, hp⟩ := conditionalIndependencies_policy G topological maxC ra R h
+  have hV := nodup_vertexList G
+  have ht := goodTest_dSeparated G hG
+  have hsound := ci_sound hV ht policy maxC ra R hp
+  refine ⟨?_, ?_, ci_unique hV ht policy maxC ra R hp, ?_⟩
+  · intro j hj
+    obtain ⟨h1, h2, h3, h4, h5, h6, h7⟩ := hsound j hj
+    refine ⟨h1, h2, (mem_vertexList G _).1 h3, (mem_vertexList G _).1 h4, h5, h7, ?_⟩
+    exact (sepVerdict_iff G hG (queryOn_of_cand G h3 h4 (Nat.ne_of_lt h2) h5)).1 h6
+  · intro a b ha hb hab C hC hsep
+    have ha' := (mem_vertexList G a).2 ha
+    have hb' := (mem_vertexList G b).2 hb
+    exact ci_complete hV ht policy maxC ra R hp a b ha' hb' hab C hC
+      ((sepVerdict_iff G hG (queryOn_of_cand G ha' hb' (Nat.ne_of_lt hab) hC)).2 hsep)
+  · intro j hj C hC hsep
+    obtain ⟨_, h2, h3, h4, _⟩ := hsound j hj
+    exact ci_minimum hV ht policy maxC ra R hp j hj C hC
+      ((sepVerdict_iff G hG (queryOn_of_cand G h3 h4 (Nat.ne_of_lt h2) hC)).2 hsep)
+
+/-- with `_len_lex` the enumeration always returns on a graph `from_edges` can build -/
+theorem ci_total_lenLex (G : MG Nat) (hG : G.WF) (maxC : Option Nat) (ra : Bool) :
+    ∃ R, G.conditionalIndependencies false maxC ra = .ok R := by
+  obtain ⟨R, hR⟩ := ci_total (nodup_vertexList G) (goodTest_dSeparated G hG) .lenLex maxC ra
+    (fun _ h => by cases h)
+  exact ⟨R, by simpa [conditionalIndependencies, bind, Except.bind, pure, Except.pure] using hR⟩
+
+/-- **Total.**  On every ADMG `from_edges` can build, with either built-in policy, any limit, `return_all` on or off,
+`get_conditional_independencies` returns (it never raises).  Uses the facts about the shared model of networkx's
+topological sort proved by the `latent` family: it succeeds on acyclic graphs and lists every node. -/
+theorem ci_total_admg (G : MG Nat) (hG : G.WF) (hA : G.Acyclic) (topological : Bool) (maxC : Option Nat)
+    (ra : Bool) : ∃ R, G.conditionalIndependencies topological maxC ra = .ok R := by
+  cases topological with
+  | false => exact ci_total_lenLex G hG maxC ra
+  | true =>
+    obtain ⟨o, ho⟩ := topologicalSort_total G hG hA
+    obtain ⟨R, hR⟩ := ci_total (nodup_vertexList G) (goodTest_dSeparated G hG) (.topological o) maxC ra
+      (fun order h v hv => by
+        cases h
+        exact topologicalSort_complete G hG o ho v ((mem_vertexList G v).1 hv))
+    exact ⟨R, by simpa [conditionalIndependencies, ho, bind, Except.bind, pure, Except.pure] using hR⟩
+
+end MG
+
+/-! ## non-vacuity -/
+
+/-- chain `0 → 1 → 2` (the F6 witness): with `max_conditions = 1` the model lists `0 ⟂ 2 | 1` (before the fix: nothing) -/
+example : (MG.fromEdges [] [(0, 1), (1, 2)] []).conditionalIndependencies true (some 1) false
+    = .ok [⟨true, 0, 2, [1]⟩] := by decide
+example : (MG.fromEdges [] [(0, 1), (1, 2)] []).conditionalIndependencies true (some 0) false = .ok [] := by decide
+/-- `1 ↔ 0 ↔ 2` (the F2 witness): only the empty set separates `1` and `2` -/
+example : (MG.fromEdges [] [] [(1, 0), (2, 0)]).conditionalIndependencies false none true
+    = .ok [⟨true, 1, 2, []⟩] := by decide
+example : powerset [3, 1, 2] 1 (some 3) = [[3], [1], [2], [3, 1], [3, 2], [1, 2]] := by decide
 
 end Y0
